@@ -19,7 +19,8 @@ recognise a construct (false alarm / lost anchor) after a refactoring.
 from __future__ import annotations
 
 import ast
-import copy
+
+from .model import clone as _clone
 
 DUP_LIMIT = 12          # max statements duplicated by one control-flow inlining
 
@@ -99,7 +100,7 @@ class _Subst(ast.NodeTransformer):
 
     def visit_Name(self, n):
         if n.id in self.mapping and isinstance(n.ctx, ast.Load):
-            return ast.copy_location(copy.deepcopy(self.mapping[n.id]), n)
+            return ast.copy_location(_clone(self.mapping[n.id]), n)
         if n.id in self.rename:
             n.id = self.rename[n.id]
         return n
@@ -235,7 +236,7 @@ class Inliner:
                 bound.setdefault(p.arg, d)
         if set(bound) != set(pnames):
             return None
-        body = copy.deepcopy(h.body)
+        body = _clone(h.body)
         stored = {x.id for x in _walk_no_nested(body) if isinstance(x, ast.Name) and isinstance(x.ctx, (ast.Store, ast.Del))}
         stored |= {x.name for x in _walk_no_nested(body) if isinstance(x, ast.ExceptHandler) and x.name}
         uses: dict[str, int] = {}
@@ -249,7 +250,7 @@ class Inliner:
                 new = p if (p not in caller_names or p in keep) else p + "_inl"
                 if new != p:
                     rename[p] = new
-                pre.append(ast.Assign([ast.Name(new, ast.Store())], copy.deepcopy(a), lineno=call.lineno, col_offset=call.col_offset))
+                pre.append(ast.Assign([ast.Name(new, ast.Store())], _clone(a), lineno=call.lineno, col_offset=call.col_offset))
             elif _simple_arg(a) or uses.get(p, 0) <= 1:
                 if not (isinstance(a, ast.Name) and a.id == p):
                     mapping[p] = a
@@ -257,7 +258,7 @@ class Inliner:
                 new = p if (p not in caller_names or p in keep) else p + "_inl"
                 if new != p:
                     rename[p] = new
-                pre.append(ast.Assign([ast.Name(new, ast.Store())], copy.deepcopy(a), lineno=call.lineno, col_offset=call.col_offset))
+                pre.append(ast.Assign([ast.Name(new, ast.Store())], _clone(a), lineno=call.lineno, col_offset=call.col_offset))
         for name in stored - set(pnames):
             if name in caller_names and name not in keep:
                 rename[name] = name + "_inl"
@@ -282,8 +283,8 @@ class Inliner:
                 dup = (0 if b_ret else len(rest)) + (0 if e_ret else len(rest))
                 if rest and not b_ret and not e_ret and dup > DUP_LIMIT:
                     return None
-                nb = self._tailify(st.body + ([] if b_ret else copy.deepcopy(rest)), make_ret)
-                ne = self._tailify(st.orelse + ([] if e_ret else (rest if b_ret else copy.deepcopy(rest))), make_ret)
+                nb = self._tailify(st.body + ([] if b_ret else _clone(rest)), make_ret)
+                ne = self._tailify(st.orelse + ([] if e_ret else (rest if b_ret else _clone(rest))), make_ret)
                 if nb is None or ne is None:
                     return None
                 out.append(ast.copy_location(ast.If(st.test, nb or [ast.Pass()], ne), st))
@@ -302,11 +303,11 @@ class Inliner:
         """control-flow inlining of a boolean helper: return True -> then_b, return False/None/end -> else_b"""
         def ret(value, at):
             if value is None or (isinstance(value, ast.Constant) and not value.value):
-                blk = copy.deepcopy(else_b)
+                blk = _clone(else_b)
             elif isinstance(value, ast.Constant) and value.value:
-                blk = copy.deepcopy(then_b)
+                blk = _clone(then_b)
             else:
-                blk = [ast.copy_location(ast.If(value, copy.deepcopy(then_b) or [ast.Pass()], copy.deepcopy(else_b)), at)]
+                blk = [ast.copy_location(ast.If(value, _clone(then_b) or [ast.Pass()], _clone(else_b)), at)]
             budget[0] -= len(blk)
             return blk or [ast.Pass()]
         body = list(stmts)
@@ -480,7 +481,7 @@ class Inliner:
                 return pre + body
             val = ast.Constant(None)
             tg = st.targets if isinstance(st, ast.Assign) else [st.target]
-            return pre + body + [ast.copy_location(ast.Assign(copy.deepcopy(tg), val), st)]
+            return pre + body + [ast.copy_location(ast.Assign(_clone(tg), val), st)]
 
         def make_ret(value, at):
             if isinstance(st, ast.Expr):
@@ -488,7 +489,7 @@ class Inliner:
                     return []
                 return [ast.copy_location(ast.Expr(value), at)]
             tg = st.targets if isinstance(st, ast.Assign) else [st.target]
-            return [ast.copy_location(ast.Assign(copy.deepcopy(tg), value if value is not None else ast.Constant(None)), at)]
+            return [ast.copy_location(ast.Assign(_clone(tg), value if value is not None else ast.Constant(None)), at)]
         if not _always_returns(body):
             body = body + [ast.Return(None)]
         if isinstance(st, ast.Expr) and tail:
@@ -521,10 +522,10 @@ class Inliner:
                     cur = ast.copy_location(ast.If(v, then_b, else_b), st)
                 elif is_and:
                     budget -= len(else_b)
-                    cur = ast.copy_location(ast.If(v, [cur], copy.deepcopy(else_b)), st)
+                    cur = ast.copy_location(ast.If(v, [cur], _clone(else_b)), st)
                 else:
                     budget -= len(then_b)
-                    cur = ast.copy_location(ast.If(v, copy.deepcopy(then_b), [cur]), st)
+                    cur = ast.copy_location(ast.If(v, _clone(then_b), [cur]), st)
             if budget < 0:
                 return None
             return [cur]
@@ -695,6 +696,8 @@ def eliminate_new_aliases(fn, known_locals: set[str], local_names: set[str]) -> 
                     continue
                 if isinstance(nxt, ast.If) and not any(x is uses[0] for x in ast.walk(nxt.test)):
                     continue
+                if _conditionally_evaluated(nxt, uses[0]):
+                    continue          # `ok and r`: substituting would make the impure call conditional
             # every use must lie in the statements that follow the definition inside its own block
             following = block[idx + 1:]
             region = {id(y) for s in following for y in ast.walk(s)}
@@ -754,6 +757,31 @@ def eliminate_new_aliases(fn, known_locals: set[str], local_names: set[str]) -> 
     if done:
         ast.fix_missing_locations(fn)
     return done
+
+
+def _conditionally_evaluated(stmt, use) -> bool:
+    """use sits in a short-circuited / lazily evaluated position of stmt (right operand of and/or, a branch of a
+    conditional expression, a comprehension or lambda body)"""
+    def walk(node, cond):
+        if node is use:
+            return cond
+        for field, val in ast.iter_fields(node):
+            vals = val if isinstance(val, list) else [val]
+            for i, v in enumerate(vals):
+                if not isinstance(v, ast.AST):
+                    continue
+                c = cond
+                if isinstance(node, ast.BoolOp) and field == "values" and i > 0:
+                    c = True
+                elif isinstance(node, ast.IfExp) and field in ("body", "orelse"):
+                    c = True
+                elif isinstance(node, (ast.Lambda, ast.ListComp, ast.SetComp, ast.DictComp, ast.GeneratorExp)):
+                    c = True
+                r = walk(v, c)
+                if r is not None:
+                    return r
+        return None
+    return bool(walk(stmt, False))
 
 
 def _is_ancestor(a, b) -> bool:
